@@ -14,17 +14,6 @@
 
 namespace sim {
 
-namespace {
-
-struct HOp
-{
-    int session{0};
-    CallSpec call;
-    std::string what;      // provenance of the input
-    uint64_t jump_to{0};   // absolute clock target before the call (0 = none)
-    int jump_family{0};    // 0 none, 1 small, 2 around 2^31, 3 wrap 2^32
-};
-
 const std::vector<std::string>& block_texts()
 {
     static const std::vector<std::string> v{
@@ -73,6 +62,18 @@ const std::vector<int>& block_parts()
     };
     return v;
 }
+
+namespace {
+
+struct HOp
+{
+    int session{0};
+    CallSpec call;
+    std::string what;      // provenance of the input
+    uint64_t jump_to{0};   // absolute clock target before the call (0 = none)
+    int jump_family{0};    // 0 none, 1 small, 2 around 2^31, 3 wrap 2^32
+};
+
 const std::vector<std::string>& query_texts()
 {
     static const std::vector<std::string> v{
